@@ -66,7 +66,6 @@ func writerArgs(fn *ssa.Function) func(s *sx) []SV {
 	}
 }
 
-
 // ---- symbolic RIFF grammar over a run's stream ----
 
 type chunkRec struct {
@@ -198,10 +197,12 @@ type runFacts struct {
 	chunks []chunkRec
 	flags  int64
 	hasX   bool
+	assume map[string]bool
 }
 
 func checkRIFF(r *sxRun) (runFacts, string) {
 	var rf runFacts
+	rf.assume = r.assume
 	st := r.stream
 	if len(st) < 3 {
 		return rf, "fewer than 12 header bytes are written"
@@ -342,6 +343,24 @@ func checkSemantics(rf runFacts) string {
 			return "an ANMF frame must contain [ALPH] followed by one VP8/VP8L chunk, found " + ss
 		}
 	}
+	// an image chunk holds a bitstream, not a frame's ALPH prefix
+	var imgs []chunkRec
+	for _, ch := range rf.chunks {
+		if ch.fourcc == "ANMF*" {
+			imgs = append(imgs, ch.nested...)
+		} else {
+			imgs = append(imgs, ch)
+		}
+	}
+	for _, ch := range imgs {
+		fc := strings.TrimSuffix(ch.fourcc, "*")
+		if fc != "VP8 " && fc != "VP8L" && fc != "?" {
+			continue
+		}
+		if len(ch.payload) > 0 && ch.payload[0].kind == "bytes" && ch.payload[0].val.Path != "" && ch.payload[0].val.Off.isConst() && ch.payload[0].val.Off.C == 0 && startsWithALPH(rf.assume, ch.payload[0].val.Path) {
+			return fmt.Sprintf("the %q chunk's payload is the frame data from its first byte although that data begins with an ALPH chunk header: the alpha prefix is not split off and no decoder accepts the chunk", fc)
+		}
+	}
 	// metadata payloads are the caller's blobs, whole
 	for _, ch := range rf.chunks {
 		switch ch.fourcc {
@@ -466,12 +485,29 @@ func muxFrameDomain(assume map[string]bool) bool {
 			short = true
 		}
 	}
-	return !(isAlph && short)
+	if isAlph && short {
+		return false
+	}
+	// ... or whose ALPH header declares more bytes than the data holds
+	if v, ok := assume["(len(elem(m.frames).data)-u32(elem(m.frames).data[4:+4])-7)>0"]; ok && !v && isAlph {
+		return false
+	}
+	return true
 }
 
-const muxFrameDomainDoc = "frame data that starts with 'ALPH' but is shorter than 12 bytes contains no VP8 bitstream (frames are VP8/VP8L bitstreams with an optional ALPH prefix)"
+// startsWithALPH: the run assumes that the blob named by path begins with the bytes 'ALPH'.
+func startsWithALPH(assume map[string]bool, path string) bool {
+	const alph = 1213221953
+	a := fmt.Sprintf("u32(%s[0:+4])", path)
+	ge, ok1 := assume[fmt.Sprintf("ge:%d:%s", alph, a)]
+	gt, ok2 := assume[fmt.Sprintf("ge:%d:%s", alph+1, a)]
+	return ok1 && ok2 && ge && !gt
+}
+
+const muxFrameDomainDoc = "frame data that starts with 'ALPH' but is shorter than 12 bytes, or whose ALPH header declares more bytes than the data holds, contains no bitstream (frames are VP8/VP8L bitstreams with an optional well-formed ALPH prefix)"
 
 func runC14(c *Ctx) {
+	c.Rule("R1/R2 (S7 loop facts): every chunk-walking loop of mux.Demuxer and container.Parser (a loop that reads a FourCC at its cursor and a 32-bit size S four bytes further) advances its cursor by 8 + S + (S odd ? 1 : 0) in every input class, except where the walker itself found that the pad byte lies beyond the data; every slice taken at cursor+8 with a variable length has length exactly S")
 	c.Rule("W-layout (S7): each container writer is executed symbolically for every class of inputs (presence and parity of every blob, frame payload shapes, still/animated) - the output is obtained as a sequence of pieces with symbolic lengths; W1: the RIFF size field equals the bytes that follow; W2: the pieces parse as complete chunks (declared size = payload written, pad byte iff odd, ANMF = 16-byte header + complete sub-chunks); W3: chunk order, VP8X flags vs chunks written, metadata payloads are whole caller blobs")
 	c.NotCovered("what the demuxer/parser read back (see R rules), values of offsets/durations/dimensions inside headers, rejection of invalid muxer states (validate is not followed), per-frame conditions are explored with all frames in the same class")
 	max := 300000
@@ -487,5 +523,16 @@ func runC14(c *Ctx) {
 			checkWriter(c, p, writerSpec{"mux", "Muxer.Assemble", []string{"validate", "frameDimensions", "canvasSize"}, map[string]bool{"ge:1:len(m.frames)": true}, muxFrameDomain, muxFrameDomainDoc}, max)
 		}
 		checkWriter(c, p, writerSpec{"", "writeRIFF", nil, nil, nil, ""}, max)
+		readerFile := func(fn *ssa.Function) bool {
+			f := p.Pos(fn.Pos())
+			return strings.HasPrefix(f, "mux/demux.go") || strings.HasPrefix(f, "mux/chunk.go") || strings.HasPrefix(f, "internal/container/")
+		}
+		before := c.Count("R1-advance")
+		checkReaders(c, p, "mux", readerFile, max)
+		checkReaders(c, p, "internal/container", readerFile, max)
+		c.Floor("R1-advance", c.Count("R1-advance")-before, 5)
 	}
 }
+
+// bitstream header parsers: their results are numbers that do not affect how the container is walked
+var headerObservers = []string{"parseVP8Header", "parseVP8LHeader", "parseVP8Dimensions", "parseVP8LDimensions", "frameDataHasAlpha", "copyBytes"}
